@@ -50,6 +50,7 @@ pub struct Stats {
     pub families: BTreeMap<String, u64>,
     pub samples: BTreeMap<String, Vec<String>>,
     pub distinct_nontrivial: HashSet<u64>,
+    pub max_case_heap: usize,
 }
 
 fn json_str(s: &str) -> String {
@@ -64,6 +65,38 @@ fn json_str(s: &str) -> String {
     o.push('"');
     o
 }
+
+/// Counting allocator: lets the runner attribute heap use to the case that caused it (a decoder whose allocations follow
+/// announced sizes shows up as one case with a huge transient peak) instead of looking at the resident set of the whole
+/// run, which also contains the runner's own bookkeeping.
+struct CountingAlloc;
+static ALLOC_CUR: std::sync::atomic::AtomicUsize = std::sync::atomic::AtomicUsize::new(0);
+static ALLOC_PEAK: std::sync::atomic::AtomicUsize = std::sync::atomic::AtomicUsize::new(0);
+unsafe impl std::alloc::GlobalAlloc for CountingAlloc {
+    unsafe fn alloc(&self, l: std::alloc::Layout) -> *mut u8 {
+        let p = std::alloc::System.alloc(l);
+        if !p.is_null() { let c = ALLOC_CUR.fetch_add(l.size(), std::sync::atomic::Ordering::Relaxed) + l.size(); ALLOC_PEAK.fetch_max(c, std::sync::atomic::Ordering::Relaxed); }
+        p
+    }
+    unsafe fn dealloc(&self, p: *mut u8, l: std::alloc::Layout) { ALLOC_CUR.fetch_sub(l.size(), std::sync::atomic::Ordering::Relaxed); std::alloc::System.dealloc(p, l) }
+    unsafe fn alloc_zeroed(&self, l: std::alloc::Layout) -> *mut u8 {
+        let p = std::alloc::System.alloc_zeroed(l);
+        if !p.is_null() { let c = ALLOC_CUR.fetch_add(l.size(), std::sync::atomic::Ordering::Relaxed) + l.size(); ALLOC_PEAK.fetch_max(c, std::sync::atomic::Ordering::Relaxed); }
+        p
+    }
+    unsafe fn realloc(&self, p: *mut u8, l: std::alloc::Layout, n: usize) -> *mut u8 {
+        let q = std::alloc::System.realloc(p, l, n);
+        if !q.is_null() {
+            if n >= l.size() { let c = ALLOC_CUR.fetch_add(n - l.size(), std::sync::atomic::Ordering::Relaxed) + (n - l.size()); ALLOC_PEAK.fetch_max(c, std::sync::atomic::Ordering::Relaxed); }
+            else { ALLOC_CUR.fetch_sub(l.size() - n, std::sync::atomic::Ordering::Relaxed); }
+        }
+        q
+    }
+}
+#[global_allocator]
+static GLOBAL: CountingAlloc = CountingAlloc;
+/// heap bytes a codec case may hold at its peak beyond what was allocated before it started (inputs are at most a few KiB)
+const CASE_HEAP_LIMIT: usize = 64 << 20;
 
 fn run_case(engine: &str, f: &[&str]) -> CaseResult {
     match (engine, f) {
@@ -150,7 +183,7 @@ fn main() {
     let stdin = std::io::stdin();
     let stdout = std::io::stdout();
     let mut out = std::io::BufWriter::new(stdout.lock());
-    let mut st = Stats { total: 0, diffs: 0, oracle: 0, families: BTreeMap::new(), samples: BTreeMap::new(), distinct_nontrivial: HashSet::new() };
+    let mut st = Stats { total: 0, diffs: 0, oracle: 0, families: BTreeMap::new(), samples: BTreeMap::new(), distinct_nontrivial: HashSet::new(), max_case_heap: 0 };
     for line in stdin.lock().lines() {
         let line = line.expect("stdin");
         if line.is_empty() { continue; }
@@ -160,7 +193,14 @@ fn main() {
             writeln!(out, "MODELCEX\t{}\t{}", f[..f.len() - 1].join(" "), f[f.len() - 1]).unwrap();
             continue;
         }
-        let res = if isolated { run_isolated(&mut iso, engine, &line) } else { run_case(engine, &f) };
+        let heap_before = ALLOC_CUR.load(std::sync::atomic::Ordering::Relaxed);
+        ALLOC_PEAK.store(heap_before, std::sync::atomic::Ordering::Relaxed);
+        let mut res = if isolated { run_isolated(&mut iso, engine, &line) } else { run_case(engine, &f) };
+        let case_heap = ALLOC_PEAK.load(std::sync::atomic::Ordering::Relaxed).saturating_sub(heap_before);
+        st.max_case_heap = st.max_case_heap.max(case_heap);
+        if engine == "codec" && case_heap > CASE_HEAP_LIMIT && res.oracle.is_none() {
+            res.oracle = Some(format!("this case allocated {} KiB of heap at its peak (limit {} KiB): memory follows an announced size instead of the bytes present", case_heap >> 10, CASE_HEAP_LIMIT >> 10));
+        }
         st.total += 1;
         let fam = f.get(1).copied().unwrap_or("?").to_string();
         *st.families.entry(fam.clone()).or_insert(0) += 1;
@@ -174,14 +214,11 @@ fn main() {
         if let Some(d) = res.diff { st.diffs += 1; if st.diffs <= 200 { writeln!(out, "DIFF\t{}\t{}", line.replace('\t', "\u{1f}"), d).unwrap(); } }
         if let Some(d) = res.oracle { st.oracle += 1; if st.oracle <= 200 { writeln!(out, "ORACLE\t{}\t{}", line.replace('\t', "\u{1f}"), d).unwrap(); } }
     }
-    // peak resident set of the whole run: a decoder whose memory follows announced sizes shows up here
+    // resident set of the whole run (reported, not judged: it contains the runner's own bookkeeping, e.g. the set of distinct cases)
     let hwm_kb: u64 = std::fs::read_to_string("/proc/self/status").ok().and_then(|t| t.lines().find(|l| l.starts_with("VmHWM:"))
         .and_then(|l| l.split_whitespace().nth(1).and_then(|n| n.parse().ok()))).unwrap_or(0);
-    if engine == "codec" && hwm_kb > 400_000 {
-        writeln!(out, "ORACLE\tpeak-rss\tthe decoder run peaked at {} KiB of resident memory on inputs of at most 64 bytes", hwm_kb).unwrap();
-    }
     let fams: Vec<String> = st.families.iter().map(|(k, v)| format!("{}:{}", json_str(k), v)).collect();
     let samples: Vec<String> = st.samples.values().flatten().map(|s| json_str(s)).collect();
-    writeln!(out, "STATS\t{{\"evaluations\":{},\"diffs\":{},\"oracle_failures\":{},\"distinct_nontrivial\":{},\"peak_rss_kb\":{},\"families\":{{{}}},\"samples\":[{}]}}",
-        st.total, st.diffs, st.oracle, st.distinct_nontrivial.len(), hwm_kb, fams.join(","), samples.join(",")).unwrap();
+    writeln!(out, "STATS\t{{\"evaluations\":{},\"diffs\":{},\"oracle_failures\":{},\"distinct_nontrivial\":{},\"peak_rss_kb\":{},\"max_case_heap_kb\":{},\"families\":{{{}}},\"samples\":[{}]}}",
+        st.total, st.diffs, st.oracle, st.distinct_nontrivial.len(), hwm_kb, st.max_case_heap >> 10, fams.join(","), samples.join(",")).unwrap();
 }
